@@ -182,6 +182,22 @@ def run(ctx):
                       f"{s!r}: {_s(at_g)} vs {_s(at_f)}", site, witness=s, sample=s)
         except SymRaise as exc:
             ctx.fail("R4", f"{label}: str parses back", f"{s!r} is rejected ({exc.exc})", site, witness=s)
-    ctx.floor("R4", 30)
+    # an unnamed mixture of named components prints as a grammar string, not as a component's name
+    for mode in ("mix_by_weight", "mix_by_volume"):
+        water = I.call(fm, ["H2O@1"], {"table": T, "name": "water"})
+        heavy = I.call(fm, ["D2O@1"], {"table": T, "name": "heavy water"})
+        mf = I.call(I.global_name("formulas", mode), [water, sp.Integer(2), heavy, sp.Integer(1)], {"table": T})
+        ctx.check(I.getattr(mf, "name") is None, "R4", f"{mode} of named components is itself unnamed",
+                  f"the mixture is named {_s(I.getattr(mf, 'name'))}", site)
+        s = text_of(mf)
+        try:
+            g = parse(s)
+            at_f, at_g = I.getattr(mf, "atoms"), I.getattr(g, "atoms")
+            ok = set(at_f) == set(at_g) and all(abs(float(at_f[a]) - float(at_g[a])) <= 1e-5 * abs(float(at_f[a])) for a in at_f)
+            ctx.check(ok, "R4", f"{mode} of named components: str parses back with every count equal to six significant digits",
+                      f"{s!r}: {_s(at_g)} vs {_s(at_f)}", site, witness=s, sample=s)
+        except SymRaise as exc:
+            ctx.fail("R4", f"{mode} of named components: str parses back", f"{s!r} is rejected ({exc.exc})", site, witness=s)
+    ctx.floor("R4", 34)
     ctx.unit("formulas_round_tripped", len(made) + len(extra))
     ctx.assume("'%g' and '%.*f' formatting are CPython's (library semantics); the PEG model of pyparsing is trusted (see C01)")
